@@ -468,6 +468,9 @@ class ScaledInteger(HasUnit, DataType):
     def import_value(self, value):
         """returns a python object from serialisation"""
         try:
+            if isinstance(value, str) or value != int(value):
+                # neither a JSON string nor a number with a fractional part is a scaled integer
+                raise ValueError
             return self.scale * int(value)
         except Exception:
             raise WrongTypeError(f'can not import {shortrepr(value)} to scaled') from None
